@@ -12,6 +12,8 @@
 #include "detsched.h"
 #include "detsched_internal.h"
 
+extern void __gcov_dump(void) __attribute__((weak));
+
 typedef struct xchoice { char tok[16]; char a[24]; char b[24]; } xchoice;
 
 typedef struct xstep {
@@ -93,6 +95,7 @@ static void run_child(sched_run_fn run, void *arg, const sched_config *cfg, sche
         run(arg);
         sched_end();
         fflush(NULL);
+        if (__gcov_dump) __gcov_dump();      /* --coverage builds: _exit skips the atexit flush */
         _exit(0);
     }
     close(rp[1]); close(ep[1]);
